@@ -160,9 +160,9 @@ def _cr_size(real):
 class _Stat:
     __pyvc_symbolic__ = True
 
-    def __init__(self, size):
+    def __init__(self, size, mtime=0):
         self.st_size = size
-        self.st_mtime = 0
+        self.st_mtime = mtime
 
 
 # ---------------------------------------------------------------------------
@@ -180,21 +180,30 @@ def bounded_read(v):
     rem0 = v.int('remaining', 0)
     fh.budget = rem0
     bf = v.obj(M + ':_BoundedFile', fh=fh, close=fh.close, remaining=rem0)
-    kind = v.choose(3, 'size-kind')
+    # every way the size argument is given: None, a count, a negative number, or omitted (the default)
+    kind = v.choose(4, 'size-kind')
     if kind == 0:
         size = None
     elif kind == 1:
         size = v.int('size', 0)
-    else:
+    elif kind == 2:
         size = v.int('size')
         v.assume(size < 0)
-    out = v.call(bf, size)
+    out = v.call(bf) if kind == 3 else v.call(bf, size)
     v.check('no-exception', out.exc is None)
     if out.exc is not None:
         return
     r = out.value
     n = Len(r)
     rem1 = v.get(bf, 'remaining')
+    # "within the specified bounds": the file is asked for min(size, what is left of the slice); an unsized read
+    # (None, negative, omitted) asks for all that is left -- a server that reads until the empty string gets the whole slice
+    if kind == 1:
+        v.check('sized-read-asks-the-file-for-min-of-size-and-remaining', fh.last_request == Min(size, rem0))
+    elif kind == 3:
+        v.check('read-without-argument-asks-the-file-for-the-whole-remaining-slice', fh.last_request == rem0)
+    else:
+        v.check('unsized-read-asks-the-file-for-the-whole-remaining-slice', fh.last_request == rem0)
     v.check('returns-file-bytes-in-order', r == data[pos0 : pos0 + n])
     v.check('budget-deducts-returned', rem1 == rem0 - n)
     v.check('budget-never-negative', rem1 >= 0)
@@ -256,6 +265,7 @@ class _OpenFile:
         self.opened = []
         self.fh = None
         self.stop_after_open = False
+        self.mtime = 0
 
     def __call__(self, path):
         v = self.v
@@ -273,7 +283,7 @@ class _OpenFile:
         size = v.int('st_size', 0)
         self.fh = GhostFile(v, size)
         self.fh.io_errors = True  # the operating system may fail a seek: answered with a 404 and a closed file
-        return self.fh, _Stat(size)
+        return self.fh, _Stat(size, self.mtime)
 
 
 def _contains(s, sub):
@@ -282,24 +292,71 @@ def _contains(s, sub):
     return sub in s
 
 
+def _http_date_of(mtime):
+    """The file's modification time as an HTTP date can express it: whole seconds, UTC."""
+    return _dt.datetime.fromtimestamp(int(mtime // 1), _dt.timezone.utc)
+
+
 @stubclass
 class _SReq:
-    def __init__(self, v, path, method, plain=False):
+    """What StaticRoute.__call__ reads of a request.  The three header accessors are properties of the real
+    Request that either return a value or raise HTTPInvalidHeader (a 400) for a malformed header:
+      if_modified_since: absent / malformed / one second before, equal to, one second after the file's HTTP date / far future;
+      Range header: absent / without a unit separator (range_unit and range raise) / `<unit>=<value>` with an arbitrary unit,
+      where the value is one of the three well-formed shapes (C09) or malformed (range raises).
+    Whether the value of a `<unit>=<value>` header is well-formed is decided when `range` is first read."""
+
+    def __init__(self, v, path, method, plain=False, mtime=0):
+        self.v = v
         self.path = path
         self.method = method
+        self.invalid = None  # name of the header whose accessor raised a 400
+        self.range_was_read = False
+        self._range = None
+        self._range_shape = None
         if plain:
-            self.if_modified_since = self.range_unit = self.range = None
+            self.ims_kind = self.header = 0
+            self._ims = None
             return
-        ims = v.choose(3, 'if-modified-since')
-        self.if_modified_since = [None, _dt.datetime(1960, 1, 1, tzinfo=_dt.timezone.utc), _dt.datetime(2100, 1, 1, tzinfo=_dt.timezone.utc)][ims]
-        ru = v.choose(3, 'range-unit')
-        self.range_unit = [None, 'bytes', 'items'][ru]
-        if ru == 0:
-            self.range = None
-        else:
-            f, l = v.int('first'), v.int('last')
-            v.assume(range_wf(f, l))
-            self.range = (f, l)
+        lm = _http_date_of(mtime)
+        self.ims_kind = v.choose(6, 'if-modified-since')
+        self._ims = [None, None, lm - _dt.timedelta(seconds=1), lm, lm + _dt.timedelta(seconds=1), _dt.datetime(2100, 1, 1, tzinfo=_dt.timezone.utc)][self.ims_kind]
+        self.header = v.choose(3, 'range-header')
+        self.unit = v.str('range_unit') if self.header == 2 else None
+
+    def _raise_400(self, header):
+        self.invalid = header
+        self.v.ctx.raise_py(self.v.real('falcon:HTTPInvalidHeader'), 'malformed', header)
+
+    @property
+    def if_modified_since(self):
+        if self.ims_kind == 1:
+            self._raise_400('If-Modified-Since')
+        return self._ims
+
+    @property
+    def range_unit(self):
+        if self.header == 1:
+            self._raise_400('Range')
+        return self.unit if self.header == 2 else None
+
+    @property
+    def range(self):
+        self.range_was_read = True
+        if self.header == 0:
+            return None
+        if self.header == 1:
+            self._raise_400('Range')
+        v = self.v
+        if self._range_shape is None:
+            self._range_shape = 1 + v.choose(2, 'range-value-malformed?')
+            if self._range_shape == 1:
+                f, l = v.int('first'), v.int('last')
+                v.assume(range_wf(f, l))
+                self._range = (f, l)
+        if self._range_shape == 2:
+            self._raise_400('Range')
+        return self._range
 
 
 @stubclass
@@ -352,6 +409,7 @@ def _static_setup(reg, ex):
 
 def _static_containment(v):
     """All request paths (symbolic strings): every _open_file call site is dominated by the containment facts."""
+    v.expect_covers('rejected', 'options')
     directory = v.str('directory')
     # __init__ normal form: normpath'ed absolute directory: starts with the separator and no '..' survives
     v.assume(directory.startswith(SEP))
@@ -361,15 +419,23 @@ def _static_containment(v):
     prefix = v.str('prefix')
     v.assume(And(prefix.startswith(SEP), prefix.endswith(SEP)))
     path = v.str('path')
-    route = v.obj(SR, _directory=directory, _fallback_filename=fallback, _prefix=prefix, _downloadable=False)
+    # containment holds for every HTTP method and whatever the downloadable flag is (neither is fixed: code that
+    # consults one of them before the last possible open is explored for every value)
+    method = v.str('method')
+    route = v.obj(SR, _directory=directory, _fallback_filename=fallback, _prefix=prefix, _downloadable=v.bool('downloadable'))
     if v.concrete:
         return  # the file system is a stub in this harness; concrete replay is not meaningful
-    req = _SReq(v, path, 'GET', plain=True)
+    req = _SReq(v, path, method, plain=True)
     resp = _SResp(v)
     opener = _OpenFile(v, directory, fallback)
     opener.stop_after_open = True
     v.registry.stubs[M + ':_open_file'] = lambda I, p: opener(p)
     out = v.call(route, req, resp)
+    if method == 'OPTIONS':
+        v.check('options-answers-allow-get-without-opening-anything',
+                out.exc is None and resp.headers_set.get('Allow') == 'GET' and not opener.opened and resp.stream is None)
+        v.cover('options')
+        return
     # only reached when no file was opened at all
     v.check('rejected-paths-are-404', out.exc is not None and out.exc.isa(v.real('falcon:HTTPNotFound')) and not opener.opened)
     v.cover('rejected')
@@ -377,27 +443,44 @@ def _static_containment(v):
 
 def _static_harness(v):
     """After a file is opened: 304 / 206 / Content-Length wiring, for a concrete well-formed path."""
+    v.expect_covers('served', 'not-modified', 'malformed-header-400', 'options')
     directory = '/srv/static'
     has_fb = v.choose(2, 'fallback?')
     fallback = '/srv/static/index.html' if has_fb else None
     prefix = '/files/'
     path = '/files/docs/report.txt'
-    method = v.one_of('method', 'GET', 'OPTIONS')
+    method = v.str('method')
+    # the file's modification time: on a second boundary / with a sub-second part (HTTP dates carry whole seconds)
+    mtime = v.one_of('st_mtime', 0, 86400.75)
     route = v.obj(SR, _directory=directory, _fallback_filename=fallback, _prefix=prefix, _downloadable=bool(v.choose(2, 'downloadable?')))
-    req = _SReq(v, path, method)
+    req = _SReq(v, path, method, mtime=mtime)
     resp = _SResp(v)
     if v.concrete:
         return  # the file system is a stub in this harness; concrete replay is not meaningful
     opener = _OpenFile(v, directory, fallback)
+    opener.mtime = mtime
     v.registry.stubs[M + ':_open_file'] = lambda I, p: opener(p)
     HTTPNotFound = v.real('falcon:HTTPNotFound')
     H416 = v.real('falcon:HTTPRangeNotSatisfiable')
+    H400 = v.real('falcon:HTTPInvalidHeader')
     out = v.call(route, req, resp)
     v.check('route-configuration-untouched', v.get(route, '_directory') == directory and v.get(route, '_fallback_filename') == fallback
             and v.get(route, '_prefix') == prefix)
     if method == 'OPTIONS':
         v.check('options-answers-allow-get-without-opening-anything',
                 out.exc is None and resp.headers_set.get('Allow') == 'GET' and not opener.opened and resp.stream is None)
+        v.cover('options')
+        return
+    # "a not-modified precondition": the file's HTTP date (whole seconds) is not later than If-Modified-Since
+    not_modified = req._ims is not None and _http_date_of(mtime) <= req._ims
+    if out.exc is not None and out.exc.isa(H400):
+        # the only 400s are the ones of the request's own header accessors: a malformed If-Modified-Since, a Range header
+        # without a unit, or a malformed value of a *bytes* range that has to be looked at (other units are ignored)
+        v.check('a-400-escapes-only-from-a-malformed-header-that-had-to-be-read',
+                (req.invalid == 'If-Modified-Since' and req.ims_kind == 1)
+                or (req.invalid == 'Range' and not not_modified and (req.header == 1 or (req.header == 2 and req.unit == 'bytes' and req._range_shape == 2))))
+        v.check('failure-sets-no-stream', resp.stream is None)
+        v.cover('malformed-header-400')
         return
     if out.exc is not None:
         v.check('anything-else-is-a-404-or-a-416', out.exc.isa(HTTPNotFound) or out.exc.isa(H416))
@@ -405,21 +488,26 @@ def _static_harness(v):
         if opener.fh is not None and v.ctx.choices and v.ctx.labels and any(l.startswith('seek-fails?=1') for l in v.ctx.labels):
             v.check('io-failure-closes-the-file', opener.fh.closed)
         if out.exc.isa(H416):
-            v.check('416-only-for-a-bytes-range', req.range_unit == 'bytes')
+            v.check('416-only-for-a-bytes-range', req.unit == 'bytes')
         return
     v.check('a-file-was-opened', len(opener.opened) >= 1)
-    not_modified = req.if_modified_since is not None and req.if_modified_since.year > 2000
     if not_modified:
         v.check('not-modified-yields-304-without-a-body', resp.status == v.real('falcon:HTTP_304') and resp.stream is None)
+        v.cover('not-modified')
         return
     v.check('modified-or-unconditional-serves-the-file', resp.stream is not None and resp.status != v.real('falcon:HTTP_304'))
-    ranged = req.range_unit == 'bytes' and req.range is not None
-    if not ranged:
+    bytes_unit = (req.header == 2) and (req.unit == 'bytes')
+    if not bytes_unit:
+        # no Range header, or another unit: the value is not even looked at (a malformed `items=...` is not an error)
         v.check('range-ignored-unless-unit-is-bytes', resp.stream is opener.fh and resp.content_range is None and resp.status == '200 OK')
         v.check('content-length-is-file-size', resp.stream_length == opener.fh.size)
     else:
+        v.check('bytes-range-value-was-consulted', req.range_was_read and req._range_shape == 1)
         partial = resp.content_range is not None
         v.check('206-iff-a-content-range-was-produced', (resp.status == v.real('falcon:HTTP_206')) == partial)
+        if not partial:
+            # no 416 escaped, so the range is satisfiable: only the empty file has no slice to express
+            v.check('a-satisfiable-bytes-range-is-served-whole-only-from-an-empty-file', opener.fh.size == 0)
         if partial:
             cr = resp.content_range
             v.check('content-length-matches-content-range', resp.stream_length == cr[1] - cr[0] + 1)
